@@ -157,6 +157,16 @@ mut('seam pair integrated over the complementary arc again', 'C09',
 mut('time patch uses the element instead of the intersection', 'C09',
     (EE, 'x_a = max(space_nbr.space_interval[0], elem.space_interval[0])',
      'x_a = elem.space_interval[0]'))
+mut('pool workers keep the first residual they were given', 'C09',
+    (EE, """            globals()['__residual'] = residual
+            globals()['__elems'] = elems
+            globals()['__error_estimator'] = self
+            cpu = mp.cpu_count()
+            with mp.Pool(cpu) as p:""", """            globals().setdefault('__residual', residual)
+            globals()['__elems'] = elems
+            globals()['__error_estimator'] = self
+            cpu = mp.cpu_count()
+            with mp.Pool(cpu) as p:"""))
 # ---- C20 ------------------------------------------------------------------
 mut('two virtual children permuted', 'C20',
     (HE, '''                DummyElement(vertices=[v01, v1, v12, vi], gamma_space=gamma),
@@ -177,6 +187,16 @@ mut('Prolongate stops at the first ancestor', 'C20',
             elem_coarse = elem_coarse.parent'''))
 mut('h-h/2 prolongation by tile instead of repeat', 'C20',
     (HH, 'Phi_prolong = np.repeat(Phi, 4)', 'Phi_prolong = np.tile(Phi, 4)'))
+mut('h-h/2 prolongation memoised per element list object', 'C20',
+    (HH, 'Phi_prolong = np.repeat(Phi, 4)',
+     """if getattr(self, '_key', None) != id(elems):
+            self._key, self._prol = id(elems), np.repeat(Phi, 4)
+        Phi_prolong = self._prol"""))
+mut('hierarchical V Phi memoised per element list object', 'C20',
+    (HE, 'VPhi = mat @ Phi',
+     """if getattr(self, '_key', None) != id(elems):
+            self._key, self._VPhi = id(elems), mat @ Phi
+        VPhi = self._VPhi"""))
 # ---- C03 ------------------------------------------------------------------
 mut('right-hand side +M0', 'C03',
     ('example.py', 'rhs = -M0.linform_vector(elems=elems, use_mp=True)',
